@@ -284,8 +284,15 @@ func c11Respond(w *world, seed uint64, opi int, op opSpec, V *baseNode, vp *prot
 	rip := c11Addr(rclass, 190+opi)
 	R := w.newPuppet(nodeCfg{name: fmt.Sprintf("R%d", opi), ip: rip.String(), port: 9300 + opi, key: detKey(seed, 100+opi), versions: []uint8{0, 1}, maxUtp: 10})
 	dists := []uint{256, 255, 254}
-	if rs.chance(30) {
+	switch rs.intn(10) {
+	case 0, 1, 2:
 		dists = []uint{0}
+	case 3:
+		dists = []uint{} // nothing requested: nothing may be accepted
+	case 4:
+		dists = []uint{255}
+	case 5:
+		dists = []uint{300, 256} // an invalid distance next to a valid one
 	}
 	nrec := int(op.n(2))
 	type rec struct {
